@@ -1032,7 +1032,7 @@ func exec(op string) string {
 		if d, ok := parseEx(op); ok {
 			return runEx(d)
 		}
-	case "spec", "specr", "specc":
+	case "spec", "specr", "specc", "met":
 		return "accept"
 	case "rt":
 		if len(w) == 3 {
@@ -1463,6 +1463,7 @@ func main() {
 		out.Case(d.op(), results[i], cls, len(d.hosts) > 0)
 	}
 	policyOps(r, out)
+	metOps(r, out, metRuns(tier))
 	kinds := []string{"q", "bl", "bu", "bc"}
 	type specScn struct {
 		kind, idem string
@@ -1533,6 +1534,13 @@ func main() {
 	}
 	out.Close(map[string]interface{}{"concurrent_attempts_counted": atomic.LoadInt64(&concAttempts),
 		"barrier_rounds": atomic.LoadInt64(&barRounds), "barrier_rounds_releasing_several_answers": atomic.LoadInt64(&barMulti)})
+}
+
+func metRuns(tier string) int {
+	if tier == "thorough" {
+		return 1200
+	}
+	return 80
 }
 
 func speccRuns(tier string) int {
